@@ -167,20 +167,26 @@ def main():
     cases, index, impl, model = run_cases(P, streams, workdir, model_bin)
     res = analyse(P, cases, index, impl, model)
     searched = False
-    if (not proof_ok or res["disagree"]) and not res["fails"] and tier == "quick":
+    degraded = pb.get("degraded") or []
+    if (not proof_ok or res["disagree"] or degraded) and not res["fails"] and tier == "quick":
         # search for a concrete failing input with the thorough streams + targeted neighbourhood
         searched = True
         extra = P.streams("search", random.Random(seed + 1))
         extra.append(("neighbourhood", P.neighbourhood([cases[i] for i in res["disagree"][:20]], rng)))
         c2, i2, im2, mo2 = run_cases(P, extra, workdir, model_bin)
         r2 = analyse(P, c2, i2, im2, mo2)
-        if r2["fails"]:
+        if r2["fails"] or (degraded and (r2["disagree"] or r2["runner"])):
             base = len(cases)
             cases += c2
             index += i2
             impl += im2
             model += mo2
             res["fails"] += [(base + i, o) for i, o in r2["fails"]]
+            res["disagree"] += [base + i for i in r2["disagree"]]
+            res["runner"] += [(base + i, w) for i, w in r2["runner"]]
+        elif degraded:
+            # the extra scrutiny agreed everywhere: count it in the evidence
+            res["searched_cases"] = len(c2)
 
     # ---- known findings: the recorded witnesses must still fail in the recorded way
     kf_lines = []
@@ -257,6 +263,8 @@ def main():
             "exhaustive": P.exhaustive(tier),
             "coq_wall_s": round(pb.get("wall", 0), 1),
             "proof_mode": pb.get("mode"),
+            "translator_tie_lost_for": degraded,
+            "search_stream_cases_run_because_of_that": res.get("searched_cases", 0),
             "coqchk": chk,
             "generated_definitions_in_dependency_cone": (pb.get("cone") or {}).get("deps"),
             "generated_definitions_differing_from_baseline": (pb.get("cone") or {}).get("changed", []),
